@@ -198,14 +198,14 @@ def plan(pid, tier, seed):
 
         def g():
             out = []
-            for k in range(32 if q else (100 if kind == "damage" else 300)):
+            for k in range(32 if q else (64 if kind == "damage" else 300)):
                 cfg = gen.cfg_choices(rng)
                 if rng.random() < 0.25:
                     cfg = {}
                 st = gen.random_history(rng, rng.choice([3, 6, 10, 16]) if q else rng.choice([5, 10, 20, 40]), cfg,
                                         dict(flush=0.4, sync_wait=1.0, final_reopen=False, big=not q))
-                # thorough: every byte of images up to ~1.5 kB x all 8 bit flips + 0x00 + 0xFF + a random value
-                opts = {"max_pos": 70 if q else 1500, "all_bits": not q} if kind == "damage" else {"max_cuts": 50 if q else 100000, "all_cuts": not q}
+                # thorough: every byte of images up to ~1 kB x all 8 bit flips + 0x00 + 0xFF + a random value
+                opts = {"max_pos": 70 if q else 1000, "all_bits": not q} if kind == "damage" else {"max_cuts": 50 if q else 100000, "all_cuts": not q}
                 out.append(dict(mode="free", tag="image:" + kind, steps=st, probes={kind: opts}))
             return out
         P["gen"].append(g)
